@@ -253,6 +253,8 @@ def _is_target_index(t):
 
 def run(ctx, chk):
     C03.r1(ctx, chk, "C13.1")
+    from . import C07
+    C07.r6_reversed_table(ctx, chk, "C13.pre:C07.6")        # the backward search must treat labels as opaque (an action named "" is an action)
     C03.r23(ctx, chk, "C13.pre:C03.2", "C13.pre:C03.3")     # a conditioning that merges or drops transitions depends on their order
     r2_consumers(ctx, chk)
     r34_opacity(ctx, chk)
